@@ -303,12 +303,17 @@ pub fn run_dummy<const N: usize>(ctx: &mut Ctx, nf: usize, na: usize, n_unquerie
     let hash_input: Vec<F> = accs.iter().flat_map(AssignedAccumulator::<Light>::as_public_input).collect();
     let r = <PoseidonChip<F> as HashCPU<F, F>>::hash(&hash_input);
     let (normal, committed) = AssignedAccumulator::<Light>::as_public_input_with_committed_scalars(&acc);
-    let bases1: Vec<C> = [acc.rhs().bases(), fb.values().cloned().collect()].concat();
+    let bases1_all: Vec<C> = [acc.rhs().bases(), fb.values().cloned().collect()].concat();
     let rhs_value = acc.rhs().eval(&fb);
     // is the pairing (committed scalars, bases1) the value of the right-hand side?  (real group operations)
-    let paired: C = committed.iter().zip(bases1.iter()).map(|(s, b)| b * s).sum();
-    let aligned = committed.len() == bases1.len() && paired == rhs_value;
+    let paired_all: C = committed.iter().zip(bases1_all.iter()).map(|(s, b)| b * s).sum();
+    let aligned_all = committed.len() == bases1_all.len() && paired_all == rhs_value;
     let names: Vec<String> = fb.keys().cloned().collect();
+    // columns of the fixed queries (what `ipa_fixed_bases` of the repaired aggregator looks at)
+    let nb_fixed = vk.fixed_commitments().len();
+    let mut queried: Vec<usize> = vk.cs().fixed_queries().iter().map(|(c, _)| c.index()).collect();
+    queried.sort();
+    queried.dedup();
     ctx.count(&format!("agg-dummy:fixed-names={}", names.len()));
     ctx.count(&format!("agg-dummy:rhs-fixed-scalars={}", acc.rhs().fixed_base_scalars().len()));
 
@@ -319,10 +324,29 @@ pub fn run_dummy<const N: usize>(ctx: &mut Ctx, nf: usize, na: usize, n_unquerie
             return;
         }
     };
-    let meta = match mzkh::catch(|| {
-        let mut t = CircuitTranscript::<Blake2bState>::init();
-        agg.aggregate_proofs(&srs, &all_instances, &proofs, &mut rng, &mut t).map(|_| t.finalize()).map_err(|e| format!("{e:?}"))
-    }) {
+    // the fixed bases the REAL aggregator pairs with the committed fixed-base scalars: the private
+    // `ipa_fixed_bases` run on a map with the key's names and distinct marker points, so that the
+    // kept names can be read off the kept values
+    let gen = C::generator();
+    let markers: std::collections::BTreeMap<String, C> = names.iter().enumerate().map(|(i, n)| (n.clone(), gen * F::from(i as u64 + 1))).collect();
+    let kept_markers = agg.verif_ipa_fixed_bases(&markers);
+    let ipa_names: Vec<String> = kept_markers.iter().filter_map(|m| markers.iter().find(|(_, v)| *v == m).map(|(n, _)| n.clone())).collect();
+    let ipa_fixed = agg.verif_ipa_fixed_bases(&fb);
+    if ipa_names.len() != kept_markers.len() || ipa_fixed != ipa_names.iter().map(|n| fb[n]).collect::<Vec<_>>() {
+        ctx.oracle_fail(&format!("{key}:ipa-fixed-bases"), "ipa_fixed_bases does not return a sub-list of the given map's values by name", json!({"case": desc}));
+        return;
+    }
+    let bases1: Vec<C> = [acc.rhs().bases(), ipa_fixed].concat();
+    let paired: C = committed.iter().zip(bases1.iter()).map(|(s, b)| b * s).sum();
+    let aligned = committed.len() == bases1.len() && paired == rhs_value;
+    ctx.count(&format!("agg-dummy:ipa-fixed-bases={}", ipa_names.len()));
+    let aggregate = |ps: &[Vec<u8>; N], rng: &mut ChaCha8Rng| {
+        mzkh::catch(|| {
+            let mut t = CircuitTranscript::<Blake2bState>::init();
+            agg.aggregate_proofs(&srs, &all_instances, ps, rng, &mut t).map(|_| t.finalize()).map_err(|e| format!("{e:?}"))
+        })
+    };
+    let meta = match aggregate(&proofs, &mut rng) {
         Ok(Ok(m)) => m,
         other => {
             ctx.oracle_fail(&format!("{key}:aggregate"), "aggregate_proofs fails on valid inner proofs", json!({"case": desc, "result": format!("{:?}", other.err())}));
@@ -352,12 +376,14 @@ pub fn run_dummy<const N: usize>(ctx: &mut Ctx, nf: usize, na: usize, n_unquerie
     let hx = |v: &[F]| mzkh::join(&v.iter().map(mzkh::fe_hex).collect::<Vec<_>>());
     let keys = |v: &[C]| mzkh::join(&v.iter().map(base_key).collect::<Vec<_>>());
     let line = format!(
-        "agg-layout {} {} {}",
+        "agg-layout {} {} {} {} {}",
         names_text(&names),
+        nb_fixed,
+        names_text(&queried.iter().map(|q| q.to_string()).collect::<Vec<_>>()),
         mzkh::fe_hex(&r),
         accs.iter().map(|a| acc_text(&acc_view::<Light>(a))).collect::<Vec<_>>().join(" ")
     );
-    let ans = format!("n={} lhs={};{} m={} rhs={} committed={} aligned={}", lb.len(), keys(&lb), hx(&ls), rb.len(), keys(&rb), hx(&committed), aligned as u8);
+    let ans = format!("n={} lhs={};{} m={} rhs={} committed={} aligned_all={} ipa_fixed={} aligned={}", lb.len(), keys(&lb), hx(&ls), rb.len(), keys(&rb), hx(&committed), aligned_all as u8, names_text(&ipa_names), aligned as u8);
     ctx.case("agg-layout", true, &line, &ans);
     if c_read != rhs_value {
         ctx.oracle_fail(&format!("{key}:rhs-evaluated"), "the point C of the aggregated proof is not the value of the accumulated right-hand side", json!({"case": desc}));
@@ -389,6 +415,46 @@ pub fn run_dummy<const N: usize>(ctx: &mut Ctx, nf: usize, na: usize, n_unquerie
         (other, true) => {
             ctx.oracle_fail(&format!("{key}:honest-rejected"), "aggregated proof over valid inner proofs is rejected", json!({"case": desc, "result": format!("{other:?}")}));
             return;
+        }
+    }
+    // an inner proof followed by junk bytes: `aggregate_proofs` builds the inner transcript itself,
+    // so it is the only place where "the whole byte string is the proof" can be checked
+    {
+        let mut ps = proofs.clone();
+        ps[N - 1].extend_from_slice(&[0x5a, 0, 1]);
+        ctx.count("agg-dummy:inner-proof-trailing-bytes");
+        match aggregate(&ps, &mut rng) {
+            Ok(Ok(bytes)) => {
+                ctx.count("agg-dummy:inner-proof-trailing-bytes:aggregated");
+                if let Ok(Ok(())) = verdict(&agg, &srs, &all_instances, &bytes) {
+                    ctx.oracle_fail(
+                        "agg-accepts:inner-proof-trailing-bytes",
+                        "LightAggregator::aggregate_proofs aggregates an inner proof followed by junk bytes (plonk::prepare without assert_empty on the inner transcript) and the aggregated proof verifies",
+                        json!({"case": desc, "proof": N - 1, "appended": "5a0001"}),
+                    );
+                }
+            }
+            Ok(Err(_)) => ctx.count("agg-dummy:inner-proof-trailing-bytes:error"),
+            Err(_) => ctx.count("agg-dummy:inner-proof-trailing-bytes:panic"),
+        }
+        // the aggregated proof itself followed by junk: `verify` leaves the transcript to its caller,
+        // who (as with plonk::prepare) must call assert_empty afterwards
+        let mut bytes = meta.clone();
+        bytes.push(0);
+        let r = mzkh::catch(|| {
+            let mut t = CircuitTranscript::<Blake2bState>::init_from_bytes(&bytes);
+            agg.verify(&srs.verifier_params(), &all_instances, &mut t).is_ok() && t.assert_empty().is_ok()
+        });
+        ctx.count("agg-dummy:extended");
+        if !matches!(r, Ok(false)) {
+            ctx.oracle_fail("agg-accepts:extended", "verify + assert_empty accepts an aggregated proof followed by a junk byte", json!({"case": desc, "result": format!("{r:?}")}));
+        }
+        let r = mzkh::catch(|| {
+            let mut t = CircuitTranscript::<Blake2bState>::init_from_bytes(&meta);
+            agg.verify(&srs.verifier_params(), &all_instances, &mut t).is_ok() && t.assert_empty().is_ok()
+        });
+        if !matches!(r, Ok(true)) {
+            ctx.oracle_fail(&format!("{key}:not-consumed"), "verify does not consume the whole honest aggregated proof", json!({"case": desc, "result": format!("{r:?}")}));
         }
     }
     // corrupted sections (first byte of each + random ones)
